@@ -764,9 +764,9 @@ class Association(threading.Thread):
                 LOGGER.info(log_msg)
                 # Ensure that EVT_ASCE_RECV fires for subscribers
                 self.dul.receive_pdu(wait=False)
-                # A local abort() may already have reported the abort, or
-                #   a release() in another thread the release
-                if not self._sent_abort and not self.is_released:
+                # A local abort() or a release() (in a handler or another
+                #   thread) may already have reported how the association ended
+                if not (self._sent_abort or self.is_released or self.is_aborted):
                     self.is_aborted = True
                     self.is_established = False
                     evt.trigger(self, evt.EVT_ABORTED, {})
